@@ -27,6 +27,9 @@ def is_null(v):
     return v is None or v is pd.NA or (isinstance(v, (float, np.floating)) and math.isnan(v))
 
 
+MIXED = [False]
+
+
 def gen_column(rng, nrows):
     """Returns (pandas Series, python values, description)."""
     kind = rng.choice(['int', 'float', 'str', 'bool'])
@@ -52,7 +55,16 @@ def gen_column(rng, nrows):
         small = pool[:rng.randint(1, min(3, len(pool)))]
         vals = [rng.choice(small) for _ in range(nrows)]
     miss = rng.choice(['none', 'none', 'some', 'one', 'all'])
-    nullv = rng.choice([None, np.nan])      # never mixed within a column
+    nullv = rng.choice([None, np.nan])      # never mixed within a column (but see MIXED below)
+    if MIXED[0] and kind in ('str', 'int') and nrows >= 2:
+        # both spellings of a missing value in ONE object column (known finding, see run_mixed)
+        ks = rng.sample(range(nrows), 2)
+        vals[ks[0]], vals[ks[1]] = None, np.nan
+        for k in range(nrows):
+            if rng.random() < 0.15:
+                vals[k] = rng.choice([None, np.nan])
+        ser = pd.Series(vals, dtype=object)
+        return ser, {'kind': kind, 'mode': mode, 'missing': 'none_and_nan', 'dtype': 'object'}
     if miss == 'some':
         for k in range(nrows):
             if rng.random() < 0.3:
@@ -288,6 +300,26 @@ def run_small(seed, n):
     return {'evaluations': n, 'distribution': dist, 'differ': differ, 'spec_fail': spec_fail,
             'exceptions': exceptions, 'nontrivial': sum(1 for d in info if d.get('nontrivial')),
             'samples': [d for d in info if d.get('nontrivial')][:2]}
+
+
+def run_mixed(seed, n):
+    """Object columns holding BOTH None and NaN: Series.unique() keeps them apart, so the reported
+    number of distinct values counts the missing value twice.  Everything the small stream checks is
+    checked here too; disagreements are reported as spec failures tagged mixed_missing."""
+    MIXED[0] = True
+    try:
+        r = run_small(seed + 5, n)
+    finally:
+        MIXED[0] = False
+    fails = []
+    for d in r['differ'] + r['spec_fail']:
+        call = d.get('call') if isinstance(d.get('call'), dict) else {}
+        mixed = any(c.get('missing') == 'none_and_nan' for c in (call.get('columns') or {}).values())
+        if isinstance(call.get('class'), dict):
+            call['class'] = dict(call['class'], stream='mixed', mixed_missing=mixed)
+        fails.append(dict(d, which='spec: distinct values with a missing value counted once'
+                          if mixed else d.get('which')))
+    return dict(r, differ=[], spec_fail=fails)
 
 
 def run_large(seed, n):
